@@ -234,6 +234,19 @@ def K4():
     return orig == rep, (t, orig, rep)
 
 
+def K7():
+    """C18.R3 known finding: elision of !new below !notnew."""
+    import awesomeyaml.yaml as ayy
+    from awesomeyaml.builder import Builder
+    def parse(src):
+        b = Builder(); b.add_source(src, raw_yaml=True); return b.stages[0]
+    src = "!notnew {a: !new {b: 1}}"
+    t = ayy.dump(parse(src))
+    orig = _plain(_try(lambda: _build("a: {}", parse(src))))
+    rep = _plain(_try(lambda: _build("a: {}", t)))
+    return orig == rep, (t, orig, rep)
+
+
 def K5():
     """C12.R7 known finding: stale exception table after instruction insertion."""
     code = ("import awesomeyaml as ay\n"
@@ -253,7 +266,7 @@ def K6():
     return out == str(sum(range(130))), (rc, out, err[-120:])
 
 
-ALL = ['F%d' % i for i in range(1, 19)] + ['K1', 'K2', 'K3', 'K4', 'K5', 'K6']
+ALL = ['F%d' % i for i in range(1, 19)] + ['K1', 'K2', 'K3', 'K4', 'K5', 'K6', 'K7']
 
 if __name__ == '__main__':
     if len(sys.argv) == 3 and sys.argv[1] == '--one':
